@@ -243,9 +243,7 @@ func (ep *ExportingProcess) SendSet(set entities.Set) (int, error) {
 		}
 	}
 	for _, record := range set.GetRecords() {
-		if setType == entities.Template {
-			ep.updateTemplate(record.GetTemplateID(), record.GetOrderedElementList(), record.GetMinDataRecordLen())
-		} else if setType == entities.Data {
+		if setType == entities.Data {
 			if record.GetTemplateID() != setID {
 				return 0, fmt.Errorf("error when doing sanity check:process: templateID %d of the data record does not match the set ID %d", record.GetTemplateID(), setID)
 			}
@@ -269,6 +267,13 @@ func (ep *ExportingProcess) SendSet(set entities.Set) (int, error) {
 	}
 	if err != nil {
 		return bytesSent, err
+	}
+	if setType == entities.Template {
+		// Register the templates only once the template set has been sent: data records
+		// must not pass the sanity check against a template the collector never received.
+		for _, record := range set.GetRecords() {
+			ep.updateTemplate(record.GetTemplateID(), record.GetOrderedElementList(), record.GetMinDataRecordLen())
+		}
 	}
 	return bytesSent, nil
 }
